@@ -11,6 +11,12 @@ CHECKS = {
    design='8 C14'),
 }
 
+CHECKS['C04'] = dict(
+   technique='Coq proof by invariant over arbitrary operation sequences and refinement to a byte-queue specification, for every chunk size; correspondence of states, contents and copy-call arguments with the real ring buffer',
+   text='Machine-checked, axiom-free theorems (coq/props/C04.v) about a hand model of ringbuffer.rs in which every raw-pointer access is a checked memory operation (out of bounds, read of a never-written cell or overlapping copy_nonoverlapping = Fault): for every chunk size k>=1, every state satisfying the documented invariants 1-4 and every operand, each operation keeps the invariants, never faults (including the overshoot of the chunked copy) and acts on the represented bytes exactly like a byte queue; lifted by induction to all operation sequences. The unsafe extend_from_within_unchecked is proved under exactly its two documented requirements. Each run compares the model with the real RingBuffer (hooks) after every operation of PRNG-generated sequences: (cap, head, tail, len, free, contents) and the exact (src, src_len, dst, dst_len, copy_at_least) of every copy_bytes_overshooting call, in debug and release builds, with a VecDeque oracle inside the harness.',
+   note='Trusted: Coq kernel; the hand model coq/model/RingBuffer.v (its agreement with the code is checked by execution only); a chunked copy is modelled by the number of cells it touches plus a bulk non-overlapping copy; allocation always succeeds; usize is unbounded nat. Real pointer provenance/aliasing and the allocator are outside the model (partial on that side).',
+   design='8 C04')
+
 NOT_YET = {}
 
 def main():
